@@ -538,3 +538,72 @@ def c18_split_multi(s0: int, s1: int, s2: int, perm: int, max_groups: int, add_k
     post: _ >= 0
     """
     return _split_multi(s0, s1, s2, perm, max_groups, add_kind)
+
+
+# ------------------------------------------------------------------ summarizeFasta TABLE (written rows) with --group-source
+def _summary_table(s0, s1, s2, perm, grouped):
+    """as c18_summarize_vs_split, but the WRITTEN summary table is parsed, the sources carry their parsers (two of them
+    mutually exclusive fusion / splicing parsers) and --group-source may put those two sources into one group"""
+    import io
+    from moPepGen.aa.PeptidePoolSummarizer import PeptidePoolSummarizer
+    lv = PERMS[concretize(perm, 0, 5)]
+    s0, s1, s2 = concretize(s0, 0, 2), concretize(s1, 0, 2), concretize(s2, 0, 2)
+    label_map = LabelSourceMapping({'G1': {'SNV-1-A-T': SRC[s0]},
+                                    'G2': {'INDEL-5-AA-A': SRC[s1], 'SNV-9-C-G': SRC[s2]}})
+    recs = [AminoAcidSeqRecord(Seq('PEPTIDEK'), _id='a', name='a',
+                               description=VARIANT_PEPTIDE_SOURCE_DELIMITER.join(LABELS)),
+            AminoAcidSeqRecord(Seq('AAAKCCCR'), _id='b', name='b', description=LABELS[0]),
+            AminoAcidSeqRecord(Seq('GGGK'), _id='c', name='c', description=LABELS[1])]
+    group_map = {'sSNV': 'RNA', 'Fusion': 'RNA'} if grouped else {}
+    parsers = {'gSNP': 'parseVEP', 'sSNV': 'parseRMATS', 'Fusion': 'parseSTARFusion'}
+    by_level = [SRC[i] for i in sorted(range(3), key=lambda i: lv[i])]
+    try:
+        summ = PeptidePoolSummarizer(peptides=VariantPeptidePool(set(recs)), label_map=label_map, group_map=dict(group_map),
+                                     source_parser_map=dict(parsers))
+        for src in by_level:
+            summ.append_order(src)
+        summ.append_order_internal_sources()
+        summ.count_peptide_source(TX2GENE, set(), 'trypsin')
+        out = io.StringIO()
+        summ.write_summary_table(out)
+        VariantSourceSet.reset_levels()
+        splitter = PeptidePoolSplitter(peptides=VariantPeptidePool(set(recs)), label_map=label_map, group_map=dict(group_map))
+        for src in by_level:
+            splitter.append_order(src)
+        splitter.append_order_internal_sources()
+        splitter.split(3, [], TX2GENE, set())
+    finally:
+        VariantSourceSet.reset_levels()
+    rows = {}
+    lines = out.getvalue().rstrip('\n').split('\n')
+    if not lines or not lines[0].startswith('sources\tn_total'):
+        return -4
+    for line in lines[1:]:
+        f = line.split('\t')
+        rows[f[0]] = int(f[1])
+    if sum(rows.values()) != 3:
+        return -1                  # totals of the written table do not add up to the number of peptides
+    sizes = {k: len(v.peptides) for k, v in splitter.databases.items() if v.peptides}
+    if {k: v for k, v in rows.items() if v} != sizes:
+        return -3                  # a written row disagrees with / is missing for a database splitFasta produces
+    return OK
+
+
+@cond('C18', bounds='summarizeFasta table as WRITTEN: 3 peptides, 3 variants with symbolic source assignment over 3 sources whose '
+      'parsers include two mutually exclusive ones (parseRMATS, parseSTARFusion), every priority order, with '
+      '--group-source putting those two sources into one group; compared with the splitFasta databases under the same '
+      'options', encodes=['moPepGen.aa.PeptidePoolSummarizer.PeptidePoolSummarizer.write_summary_table / '
+      'contains_exclusive_sources / append_order / count_peptide_source', 'moPepGen.aa.PeptidePoolSplitter.'
+      'PeptidePoolSplitter.split / append_order'],
+      codes={-1: 'totals of the written summary table do not add up to the number of peptides',
+             -3: 'a written row disagrees with, or is missing for, a database splitFasta produces',
+             -4: 'table header malformed'}, timeout=600)
+def c18_summary_table_grouped(s0: int, s1: int, s2: int, perm: int) -> int:
+    """
+    pre: 0 <= s0 <= 2 and 0 <= s1 <= 2 and 0 <= s2 <= 2
+    pre: 0 <= perm <= 5
+    post: _ >= 0
+    """
+    # ungrouped, a source set holding both exclusive parsers' sources cannot occur in real data and its row is dropped
+    # on purpose; with the two sources in ONE group every source set is legitimate
+    return _summary_table(s0, s1, s2, perm, True)
